@@ -30,9 +30,9 @@ RULE = (
     "instances of a planted schema (ambiguous ENUM prefixes, 2-3 unknown fields, several simultaneous errors) and schema documents "
     "with colliding field names: validate x {META,SKILL,GEN_DET,unknown} x profiles x fix/grammar_hint/debug_grammar, write (content, "
     "lenient, schema) to per-call relative paths, eject 4 modes x 5 formats, compile_grammar (schema / content, gbnf / json_schema), "
-    "direct emit+warnings, seal, hash, Validator+routing log, reused GBNFCompiler. Executed by 15 (thorough 30) worker processes "
+    "direct emit+warnings, seal, hash, Validator+routing log, reused GBNFCompiler. Executed by 19 (thorough 40+) worker processes "
     "covering PYTHONHASHSEED {0,1,4242,random} x 2 working directories x LANG/LC_ALL {C.UTF-8,C,POSIX} x mode {plain, after a "
-    "shuffled history of the same calls, asyncio.gather, four OS threads sharing the tool instances with a 1 us GIL switch interval}; every call's serialised envelope must equal the reference worker's byte "
+    "shuffled history of the same calls, asyncio.gather, four OS threads sharing the tool instances with a 1 us GIL switch interval, cold start with the first eight calls made at once by eight threads}; every call's serialised envelope must equal the reference worker's byte "
     "for byte. evaluations = calls x workers. Non-trivial = the reference envelope contains a list with >=2 entries (errors, "
     "repairs, warnings, unknown fields, routing) — where set iteration order would show; distinct by call."
 )
@@ -123,6 +123,8 @@ def configs(tier: str):
     out.append({**base, "mode": "shuffled", "sseed": 1})
     out.append({**base, "mode": "shuffled", "sseed": 2, "hashseed": "4242"})
     out.append({**base, "mode": "gather"})
+    for k in range(4):
+        out.append({**base, "mode": "coldthreads", "sseed": 20 + k, "hashseed": ["0", "1", "random", "4242"][k]})
     out.append({**base, "mode": "threads", "sseed": 5})
     out.append({"hashseed": "random", "cwd": "B", "lang": "C", "mode": "threads", "sseed": 6})
     out.append({"hashseed": "random", "cwd": "B", "lang": "POSIX", "mode": "shuffled", "sseed": 3})
@@ -130,7 +132,7 @@ def configs(tier: str):
     out.append({"hashseed": "random", "cwd": "A", "lang": "C", "mode": "plain"})
     if tier != "quick":
         for hs in ("7", "99", "random", "random"):
-            for mode in ("plain", "shuffled", "gather", "threads"):
+            for mode in ("plain", "shuffled", "gather", "threads", "coldthreads", "coldthreads"):
                 out.append({"hashseed": hs, "cwd": "AB"[len(out) % 2], "lang": ["C.UTF-8", "C", "POSIX"][len(out) % 3], "mode": mode, "sseed": len(out)})
     return out
 
